@@ -70,6 +70,12 @@ def gen_perf(w, k):
             dur = w.choice((float(tick * w.randrange(1, 900)), round(w.uniform(0.01, 2.0), 6), 0.0, float(tick) / 4))
             n = {"id": "p%dn%d" % (pi, i), "midi_pitch": w.randrange(21, 109), "note_on": on, "note_off": on + dur, "velocity": w.randrange(1, 128), "track": w.choice(tracks), "channel": w.choice((0, 0, 1, 9, 15))}
             notes.append(n)
+        if w.random() < 0.15:
+            # the two ends of the pitch range sounding together on neighbouring channels of one track
+            c0 = w.choice((0, 1, 8, 14))
+            t0 = round(w.uniform(0, 6), 3)
+            notes.append({"id": "p%dhi" % pi, "midi_pitch": 127, "note_on": t0, "note_off": t0 + 1.0, "velocity": 127, "track": tracks[0], "channel": c0})
+            notes.append({"id": "p%dlo" % pi, "midi_pitch": 0, "note_on": t0 + 0.25, "note_off": t0 + 0.5, "velocity": 1, "track": tracks[0], "channel": c0 + 1})
         if pi > 0 and parts and parts[0]["notes"] and notes and w.random() < 0.4:
             # struck together with a note of the first part (same tick in the file)
             src = w.choice(parts[0]["notes"])
@@ -132,6 +138,15 @@ def gen_foreign(w, k):
                 tracks[tr].append({"tick": off, "type": "note_on", "channel": ch, "note": pitch, "velocity": 0})
             else:
                 tracks[tr].append({"tick": off, "type": "note_off", "channel": ch, "note": pitch, "velocity": w.choice((0, 64))})
+        if w.random() < 0.15 and not any(p in (0, 127) for a, b, p, c in used):
+            c0 = w.choice((0, 2, 14))
+            on = w.randrange(0, 4000)
+            used.append((on, on + 400, 127, c0))
+            used.append((on + 100, on + 200, 0, c0 + 1))
+            tracks[tr].append({"tick": on, "type": "note_on", "channel": c0, "note": 127, "velocity": 127})
+            tracks[tr].append({"tick": on + 100, "type": "note_on", "channel": c0 + 1, "note": 0, "velocity": 1})
+            tracks[tr].append({"tick": on + 200, "type": "note_off", "channel": c0 + 1, "note": 0, "velocity": 0})
+            tracks[tr].append({"tick": on + 400, "type": "note_off", "channel": c0, "note": 127, "velocity": 0})
         if w.random() < 0.4:
             tracks[tr].append({"tick": w.randrange(0, 3000), "type": "control_change", "channel": 0, "control": 64, "value": w.choice((0, 127))})
         # messages a performance does not keep (pitch bend, aftertouch, system exclusive): their delta times still count
